@@ -331,9 +331,17 @@ func Check[C any](t *testing.T, p Prop[C]) {
 			recordViolation(st, p.ID, test, best.raw, best.out, path)
 		}
 	}()
+	var longFailed *Outcome // OneShard: the first violation (its case takes minutes: it is not run again for shrinking or replay)
 	rapid.Check(t, func(rt *rapid.T) {
 		c := p.Gen(rt)
+		if p.OneShard && longFailed != nil {
+			rt.Fatalf("%s violated [%s]: %s", p.ID, longFailed.Sig, longFailed.Violation)
+		}
 		out := watched(p.ID, test, c, func() Outcome { return p.Run(t, c) })
+		if p.OneShard && out.Violation != "" {
+			o := out
+			longFailed = &o
+		}
 		if out.Violation != "" && Mode == "coop" {
 			// a cooperative schedule is a function of the case - unless the Go runtime itself switches goroutines (a
 			// goroutine that has been on the processor for more than 10 ms of wall time, e.g. because the machine is
